@@ -203,6 +203,8 @@ def run(an: Analysis, rep):
     rep.run(r028, an, rep)
     from .common import local_memo_rule
     rep.run(local_memo_rule, an, rep, "R02.M", ["from_code"])
+    from .common import old_interpreter_rule
+    rep.run(old_interpreter_rule, an, rep, "R02.V", ["from_code"])
     from .common import SharedRules
     from . import c10
     from . import c13
